@@ -7,10 +7,13 @@ Local Open Scope N_scope.
 (* ---- removing an element *)
 Definition rm (k : N) (l : list N) : list N := filter (fun x => negb (x =? k)) l.
 
+Lemma rm_cons k x l : rm k (x :: l) = if x =? k then rm k l else x :: rm k l.
+Proof. unfold rm. cbn. now destruct (x =? k). Qed.
+
 Lemma rm_notin k l : ~ In k l -> rm k l = l.
 Proof.
-  induction l as [|x l IH]; cbn; intro H; [reflexivity|].
-  destruct (N.eqb_spec x k) as [E|Hne]; [subst|]; cbn.
+  induction l as [|x l IH]; intro H; [reflexivity|].
+  rewrite rm_cons. destruct (N.eqb_spec x k) as [E|E].
   - exfalso. apply H. now left.
   - f_equal. apply IH. intro Hin. apply H. now right.
 Qed.
@@ -27,27 +30,33 @@ Proof. unfold rm. intro H. apply filter_In in H. tauto. Qed.
 Lemma rm_nodup k l : NoDup l -> NoDup (rm k l).
 Proof. apply NoDup_filter. Qed.
 
-Lemma rm_app k l1 l2 : rm k (l1 ++ l2) = rm k l1 ++ rm k l2.
-Proof. unfold rm. apply filter_app. Qed.
-
 Lemma remove_first_rm k l : NoDup l -> remove_first k l = rm k l.
 Proof.
-  induction l as [|x l IH]; cbn; intro Hnd; [reflexivity|].
+  induction l as [|x l IH]; intro Hnd; [reflexivity|].
   inversion Hnd as [|y l' Hnin Hnd']; subst.
-  destruct (N.eqb_spec x k) as [E|Hne]; [subst|]; cbn.
-  - symmetry. now apply rm_notin.
+  rewrite rm_cons. cbn [remove_first]. destruct (N.eqb_spec x k) as [E|E].
+  - subst x. symmetry. now apply rm_notin.
   - f_equal. now apply IH.
 Qed.
 
 (* ---- the table *)
+Lemma upd_entry_cons e t n f :
+  upd_entry (e :: t) n f =
+  (if ename e =? n then mkEntry (ename e) (eid e) (f (emem e)) else e) :: upd_entry t n f.
+Proof. reflexivity. Qed.
+
+Lemma drop_entry_cons e t n :
+  drop_entry (e :: t) n = if ename e =? n then drop_entry t n else e :: drop_entry t n.
+Proof. unfold drop_entry. cbn. now destruct (ename e =? n). Qed.
+
 Lemma find_entry_upd_same t n f :
   find_entry (upd_entry t n f) n =
   option_map (fun e => mkEntry (ename e) (eid e) (f (emem e))) (find_entry t n).
 Proof.
   induction t as [|e t IH]; [reflexivity|].
-  cbn [upd_entry map find_entry]. fold (upd_entry t n f).
-  destruct (N.eqb_spec (ename e) n) as [He|He].
-  - subst n. cbn [ename]. rewrite N.eqb_refl. reflexivity.
+  rewrite upd_entry_cons. cbn [find_entry].
+  destruct (N.eqb_spec (ename e) n) as [He|He]; cbn [ename].
+  - rewrite He, N.eqb_refl. cbn. now rewrite He.
   - destruct (N.eqb_spec (ename e) n); [contradiction|]. exact IH.
 Qed.
 
@@ -55,33 +64,28 @@ Lemma find_entry_upd_other t n f n' :
   n' <> n -> find_entry (upd_entry t n f) n' = find_entry t n'.
 Proof.
   intro Hne. induction t as [|e t IH]; [reflexivity|].
-  cbn [upd_entry map find_entry]. fold (upd_entry t n f).
-  destruct (N.eqb_spec (ename e) n) as [He|He].
-  - cbn [ename]. destruct (N.eqb_spec (ename e) n'); [congruence|]. exact IH.
+  rewrite upd_entry_cons. cbn [find_entry].
+  destruct (N.eqb_spec (ename e) n) as [He|He]; cbn [ename].
+  - destruct (N.eqb_spec (ename e) n'); [congruence|]. exact IH.
   - destruct (ename e =? n'); [reflexivity|exact IH].
 Qed.
 
-Lemma find_entry_upd t n f n' :
-  find_entry (upd_entry t n f) n' =
-  if n' =? n then option_map (fun e => mkEntry (ename e) (eid e) (f (emem e))) (find_entry t n)
-  else find_entry t n'.
+Lemma find_entry_drop_same t n : find_entry (drop_entry t n) n = None.
 Proof.
-  destruct (N.eqb_spec n' n) as [E|Hne]; [subst|].
-  - apply find_entry_upd_same.
-  - now apply find_entry_upd_other.
+  induction t as [|e t IH]; [reflexivity|].
+  rewrite drop_entry_cons.
+  destruct (N.eqb_spec (ename e) n) as [He|He]; [exact IH|].
+  cbn [find_entry]. destruct (N.eqb_spec (ename e) n); [contradiction|]. exact IH.
 Qed.
 
-Lemma find_entry_drop t n n' :
-  find_entry (drop_entry t n) n' = if n' =? n then None else find_entry t n'.
+Lemma find_entry_drop_other t n n' :
+  n' <> n -> find_entry (drop_entry t n) n' = find_entry t n'.
 Proof.
-  induction t as [|e t IH]; [cbn; now destruct (n' =? n)|].
-  unfold drop_entry in *. cbn [filter].
-  destruct (N.eqb_spec (ename e) n) as [He|He]; cbn [negb].
-  - rewrite IH. cbn [find_entry]. destruct (N.eqb_spec n' n) as [E|Hn]; [subst; reflexivity|].
-    destruct (N.eqb_spec (ename e) n'); [congruence|reflexivity].
-  - cbn [find_entry]. destruct (N.eqb_spec (ename e) n') as [He'|He'].
-    + destruct (N.eqb_spec n' n); [congruence|reflexivity].
-    + apply IH.
+  intro Hne. induction t as [|e t IH]; [reflexivity|].
+  rewrite drop_entry_cons. cbn [find_entry].
+  destruct (N.eqb_spec (ename e) n) as [He|He].
+  - destruct (N.eqb_spec (ename e) n'); [congruence|]. exact IH.
+  - cbn [find_entry]. destruct (ename e =? n'); [reflexivity|exact IH].
 Qed.
 
 Lemma find_entry_app t e n' :
@@ -97,13 +101,18 @@ Lemma mem_of_upd t n f n' :
   if n' =? n then match find_entry t n with Some e => f (emem e) | None => [] end
   else mem_of t n'.
 Proof.
-  unfold mem_of. rewrite find_entry_upd.
-  destruct (n' =? n); [|reflexivity]. now destruct (find_entry t n).
+  unfold mem_of. destruct (N.eqb_spec n' n) as [E|E].
+  - subst n'. rewrite find_entry_upd_same. now destruct (find_entry t n).
+  - now rewrite find_entry_upd_other.
 Qed.
 
 Lemma mem_of_drop t n n' :
   mem_of (drop_entry t n) n' = if n' =? n then [] else mem_of t n'.
-Proof. unfold mem_of. rewrite find_entry_drop. now destruct (n' =? n). Qed.
+Proof.
+  unfold mem_of. destruct (N.eqb_spec n' n) as [E|E].
+  - subst n'. now rewrite find_entry_drop_same.
+  - now rewrite find_entry_drop_other.
+Qed.
 
 Lemma add_listener_mem s k n n' :
   n <> 0 ->
@@ -114,11 +123,11 @@ Proof.
   destruct (N.eqb_spec n 0) as [|_]; [contradiction|].
   destruct (find_entry (tab s) n) as [e|] eqn:Hf; cbn [tab with_tab].
   - rewrite mem_of_upd, Hf.
-    destruct (N.eqb_spec n' n) as [E|]; [subst; |reflexivity].
-    unfold mem_of. now rewrite Hf.
+    destruct (N.eqb_spec n' n) as [E|E]; [|reflexivity].
+    subst n'. unfold mem_of. now rewrite Hf.
   - unfold mem_of. rewrite find_entry_app. cbn [ename emem].
-    destruct (N.eqb_spec n' n) as [E|Hne]; [subst|].
-    + rewrite Hf, N.eqb_refl. reflexivity.
+    destruct (N.eqb_spec n' n) as [E|E].
+    + subst n'. rewrite Hf, N.eqb_refl. reflexivity.
     + destruct (find_entry (tab s) n'); [reflexivity|].
       destruct (N.eqb_spec n n'); [congruence|reflexivity].
 Qed.
@@ -128,16 +137,16 @@ Lemma remove_listener_mem s k n n' :
   if (n' =? n) && negb (n =? 0) then remove_first k (mem_of (tab s) n') else mem_of (tab s) n'.
 Proof.
   unfold remove_listener.
-  destruct (N.eqb_spec n 0) as [E|Hn0]; [subst; now rewrite andb_false_r|].
+  destruct (N.eqb_spec n 0) as [Hn0|Hn0]; [now rewrite andb_false_r|].
   rewrite andb_true_r.
   destruct (find_entry (tab s) n) as [e|] eqn:Hf.
   - destruct (remove_first k (emem e)) as [|x r] eqn:Hr; cbn [tab with_tab].
-    + rewrite mem_of_drop. destruct (N.eqb_spec n' n) as [E|]; [subst; |reflexivity].
-      unfold mem_of. now rewrite Hf, Hr.
-    + rewrite mem_of_upd, Hf. destruct (N.eqb_spec n' n) as [E|]; [subst; |reflexivity].
-      unfold mem_of. now rewrite Hf.
-  - destruct (N.eqb_spec n' n) as [E|]; [subst; |reflexivity].
-    unfold mem_of. now rewrite Hf.
+    + rewrite mem_of_drop. destruct (N.eqb_spec n' n) as [E|E]; [|reflexivity].
+      subst n'. unfold mem_of. now rewrite Hf, Hr.
+    + rewrite mem_of_upd, Hf. destruct (N.eqb_spec n' n) as [E|E]; [|reflexivity].
+      subst n'. unfold mem_of. now rewrite Hf.
+  - destruct (N.eqb_spec n' n) as [E|E]; [|reflexivity].
+    subst n'. unfold mem_of. now rewrite Hf.
 Qed.
 
 Lemma add_listener_rest s k n :
@@ -158,17 +167,27 @@ Proof.
 Qed.
 
 (* ---- (id, name) lists *)
-Lemma find_name_without k l k' :
-  find_name (without k l) k' = if k' =? k then None else find_name l k'.
+Lemma without_cons k i m l :
+  without k ((i, m) :: l) = if i =? k then without k l else (i, m) :: without k l.
+Proof. unfold without. cbn. now destruct (i =? k). Qed.
+
+Lemma rename_in_cons k n i m l :
+  rename_in k n ((i, m) :: l) = (if i =? k then (k, n) else (i, m)) :: rename_in k n l.
+Proof. reflexivity. Qed.
+
+Lemma find_name_without_same k l : find_name (without k l) k = None.
 Proof.
-  induction l as [|[i n] l IH]; cbn.
-  - now destruct (k' =? k).
-  - destruct (N.eqb_spec i k) as [E|Hik]; [subst|]; cbn.
-    + rewrite IH. destruct (N.eqb_spec k' k) as [E|Hne]; [subst; reflexivity|].
-      destruct (N.eqb_spec k k'); [congruence|reflexivity].
-    + destruct (N.eqb_spec i k') as [->|Hik'].
-      * destruct (N.eqb_spec k' k); [congruence|reflexivity].
-      * apply IH.
+  induction l as [|[i m] l IH]; [reflexivity|].
+  rewrite without_cons. destruct (N.eqb_spec i k) as [E|E]; [exact IH|].
+  cbn [find_name]. destruct (N.eqb_spec i k); [contradiction|exact IH].
+Qed.
+
+Lemma find_name_without_other k l k' : k' <> k -> find_name (without k l) k' = find_name l k'.
+Proof.
+  intro Hne. induction l as [|[i m] l IH]; [reflexivity|].
+  rewrite without_cons. cbn [find_name]. destruct (N.eqb_spec i k) as [E|E].
+  - destruct (N.eqb_spec i k'); [congruence|exact IH].
+  - cbn [find_name]. destruct (i =? k'); [reflexivity|exact IH].
 Qed.
 
 Lemma find_name_app l k n k' :
@@ -179,34 +198,35 @@ Proof.
   destruct (i =? k'); [reflexivity|apply IH].
 Qed.
 
-Lemma find_name_rename k n l k' :
-  find_name (rename_in k n l) k' =
-  if k' =? k then option_map (fun _ => n) (find_name l k) else find_name l k'.
+Lemma find_name_rename_same k n l :
+  find_name (rename_in k n l) k = option_map (fun _ => n) (find_name l k).
 Proof.
-  induction l as [|[i m] l IH]; cbn.
-  - now destruct (k' =? k).
-  - destruct (N.eqb_spec i k) as [E|Hik]; [subst|]; cbn.
-    + destruct (N.eqb_spec k' k) as [E|Hne]; [subst|].
-      * now rewrite N.eqb_refl.
-      * destruct (N.eqb_spec k k'); [congruence|].
-        rewrite IH. destruct (N.eqb_spec k' k); [contradiction|reflexivity].
-    + destruct (N.eqb_spec k' k) as [E|Hne]; [subst|].
-      * destruct (N.eqb_spec i k); [contradiction|].
-        rewrite IH, N.eqb_refl. reflexivity.
-      * destruct (i =? k'); [reflexivity|].
-        rewrite IH. destruct (N.eqb_spec k' k); [contradiction|reflexivity].
+  induction l as [|[i m] l IH]; [reflexivity|].
+  rewrite rename_in_cons. cbn [find_name]. destruct (N.eqb_spec i k) as [E|E].
+  - now rewrite N.eqb_refl.
+  - destruct (N.eqb_spec i k); [contradiction|exact IH].
+Qed.
+
+Lemma find_name_rename_other k n l k' :
+  k' <> k -> find_name (rename_in k n l) k' = find_name l k'.
+Proof.
+  intro Hne. induction l as [|[i m] l IH]; [reflexivity|].
+  rewrite rename_in_cons. cbn [find_name]. destruct (N.eqb_spec i k) as [E|E].
+  - destruct (N.eqb_spec k k'); [congruence|].
+    destruct (N.eqb_spec i k'); [congruence|exact IH].
+  - destruct (i =? k'); [reflexivity|exact IH].
 Qed.
 
 Lemma find_name_in_ids l k n : find_name l k = Some n -> In k (map fst l).
 Proof.
   induction l as [|[i m] l IH]; cbn; [discriminate|].
-  destruct (N.eqb_spec i k) as [E|]; [subst; now left|]. intro H. right. now apply IH.
+  destruct (N.eqb_spec i k) as [E|E]; [now left|]. intro H. right. now apply IH.
 Qed.
 
 Lemma find_name_none l k : ~ In k (map fst l) -> find_name l k = None.
 Proof.
   induction l as [|[i m] l IH]; cbn; [reflexivity|]. intro H.
-  destruct (N.eqb_spec i k) as [E|]; [subst; exfalso; apply H; now left|].
+  destruct (N.eqb_spec i k) as [E|E]; [exfalso; apply H; now left|].
   apply IH. intro Hin. apply H. now right.
 Qed.
 
@@ -216,21 +236,22 @@ Proof.
   inversion Hnd as [|x y Hnin Hnd']; subst.
   destruct Hin as [Heq|Hin].
   - inversion Heq; subst. now rewrite N.eqb_refl.
-  - destruct (N.eqb_spec i k) as [E|]; [subst|].
-    + exfalso. apply Hnin. apply in_map_iff. exists (k, n). split; [reflexivity|exact Hin].
+  - destruct (N.eqb_spec i k) as [E|E].
+    + subst i. exfalso. apply Hnin. apply in_map_iff. exists (k, n). split; [reflexivity|exact Hin].
     + now apply IH.
 Qed.
 
 Lemma ids_without k l : map fst (without k l) = rm k (map fst l).
 Proof.
-  induction l as [|[i m] l IH]; cbn; [reflexivity|].
+  induction l as [|[i m] l IH]; [reflexivity|].
+  rewrite without_cons. cbn [map fst]. rewrite rm_cons.
   destruct (i =? k); cbn; [exact IH|now rewrite IH].
 Qed.
 
 Lemma without_notin k l : ~ In k (map fst l) -> without k l = l.
 Proof.
-  induction l as [|[i m] l IH]; cbn; intro H; [reflexivity|].
-  destruct (N.eqb_spec i k) as [E|]; [subst|]; cbn.
+  induction l as [|[i m] l IH]; intro H; [reflexivity|].
+  rewrite without_cons. destruct (N.eqb_spec i k) as [E|E].
   - exfalso. apply H. now left.
   - f_equal. apply IH. intro Hin. apply H. now right.
 Qed.
@@ -239,83 +260,108 @@ Lemma without_app k l1 l2 : without k (l1 ++ l2) = without k l1 ++ without k l2.
 Proof. unfold without. apply filter_app. Qed.
 
 (* ---- lookup *)
+Definition named (n : N) (l : list (N * N)) : list N := map fst (filter (fun p => snd p =? n) l).
+
+Lemma named_cons n i m l : named n ((i, m) :: l) = if m =? n then i :: named n l else named n l.
+Proof. unfold named. cbn. now destruct (m =? n). Qed.
+
+Lemma lookup_named n l : lookup n l = if n =? 0 then [] else named n l.
+Proof. reflexivity. Qed.
+
+Lemma unnamed_named l : unnamed l = named 0 l.
+Proof. reflexivity. Qed.
+
+Lemma named_app n l k m : named n (l ++ [(k, m)]) = named n l ++ (if m =? n then [k] else []).
+Proof. unfold named. rewrite filter_app, map_app. cbn. now destruct (m =? n). Qed.
+
+Lemma named_without n k l : named n (without k l) = rm k (named n l).
+Proof.
+  induction l as [|[i m] l IH]; [reflexivity|].
+  rewrite without_cons, named_cons.
+  destruct (N.eqb_spec i k) as [E|E].
+  - destruct (m =? n); [|exact IH]. rewrite rm_cons. subst i. now rewrite N.eqb_refl.
+  - rewrite named_cons. destruct (m =? n); [|exact IH].
+    rewrite rm_cons. destruct (N.eqb_spec i k); [contradiction|]. now rewrite IH.
+Qed.
+
+Lemma named_rename n k n' l : n' <> n -> named n (rename_in k n' l) = rm k (named n l).
+Proof.
+  intro Hn. induction l as [|[i m] l IH]; [reflexivity|].
+  rewrite rename_in_cons, named_cons. destruct (N.eqb_spec i k) as [E|E].
+  - rewrite named_cons. destruct (N.eqb_spec n' n); [contradiction|].
+    destruct (m =? n); [|exact IH]. rewrite rm_cons. subst i. now rewrite N.eqb_refl.
+  - rewrite named_cons. destruct (m =? n); [|exact IH].
+    rewrite rm_cons. destruct (N.eqb_spec i k); [contradiction|]. now rewrite IH.
+Qed.
+
+Lemma unnamed_app l k m : unnamed (l ++ [(k, m)]) = unnamed l ++ (if m =? 0 then [k] else []).
+Proof. exact (named_app 0 l k m). Qed.
+
+Lemma unnamed_without k l : unnamed (without k l) = rm k (unnamed l).
+Proof. exact (named_without 0 k l). Qed.
+
+Lemma unnamed_rename k n l : n <> 0 -> unnamed (rename_in k n l) = rm k (unnamed l).
+Proof. exact (named_rename 0 k n l). Qed.
+
+Lemma named_in n l k : In k (named n l) -> In (k, n) l.
+Proof.
+  unfold named. intro H. apply in_map_iff in H. destruct H as [[i m] [Hfst Hin]].
+  cbn in Hfst. subst i. apply filter_In in Hin. destruct Hin as [Hin Hm]. cbn in Hm.
+  apply N.eqb_eq in Hm. now subst m.
+Qed.
+
+Lemma named_nodup n l : NoDup (map fst l) -> NoDup (named n l).
+Proof.
+  induction l as [|[i m] l IH]; intro Hnd; [constructor|].
+  cbn in Hnd. inversion Hnd as [|x y Hnin Hnd']; subst.
+  rewrite named_cons. destruct (m =? n); [|now apply IH].
+  constructor; [|now apply IH].
+  intro Hin. apply Hnin. apply named_in in Hin. apply in_map_iff. exists (i, n). tauto.
+Qed.
+
+Lemma named_other n l k a :
+  NoDup (map fst l) -> find_name l k = Some a -> n <> a -> ~ In k (named n l).
+Proof.
+  intros Hnd Hf Hne Hin. apply named_in in Hin.
+  rewrite (find_name_of_in l k n Hnd Hin) in Hf. congruence.
+Qed.
+
+Lemma named_dead n l k : find_name l k = None -> ~ In k (named n l).
+Proof.
+  intros Hf Hin. apply named_in in Hin.
+  assert (In k (map fst l)) as Hk by (apply in_map_iff; exists (k, n); tauto).
+  clear Hin. induction l as [|[i m] l IH]; cbn in *; [contradiction|].
+  destruct (N.eqb_spec i k) as [E|E]; [discriminate|].
+  destruct Hk as [|Hk]; [contradiction|]. now apply IH.
+Qed.
+
 Lemma lookup_app n l k m :
   lookup n (l ++ [(k, m)]) = lookup n l ++ (if (m =? n) && negb (n =? 0) then [k] else []).
 Proof.
-  unfold lookup. destruct (n =? 0); [now rewrite andb_false_r|].
-  rewrite andb_true_r, filter_app, map_app. cbn. now destruct (m =? n).
+  rewrite !lookup_named. destruct (n =? 0); [now rewrite andb_false_r|].
+  rewrite andb_true_r. apply named_app.
 Qed.
 
 Lemma lookup_without n k l : lookup n (without k l) = rm k (lookup n l).
-Proof.
-  unfold lookup. destruct (n =? 0); [reflexivity|].
-  induction l as [|[i m] l IH]; cbn; [reflexivity|].
-  destruct (N.eqb_spec i k) as [E|Hik]; [subst|]; cbn.
-  - destruct (m =? n); cbn; [rewrite N.eqb_refl; cbn|]; exact IH.
-  - destruct (m =? n); cbn.
-    + destruct (N.eqb_spec i k); [contradiction|]. cbn. now rewrite IH.
-    + exact IH.
-Qed.
-
-Lemma lookup_in n l k : In k (lookup n l) -> n <> 0 /\ In (k, n) l.
-Proof.
-  unfold lookup. destruct (N.eqb_spec n 0) as [|Hn]; [contradiction|].
-  intro H. apply in_map_iff in H. destruct H as [[i m] [Hfst Hin]]. cbn in Hfst. subst i.
-  apply filter_In in Hin. destruct Hin as [Hin Hm]. cbn in Hm. apply N.eqb_eq in Hm. subst m.
-  tauto.
-Qed.
+Proof. rewrite !lookup_named. destruct (n =? 0); [reflexivity|apply named_without]. Qed.
 
 Lemma lookup_nodup n l : NoDup (map fst l) -> NoDup (lookup n l).
-Proof.
-  unfold lookup. destruct (n =? 0); [constructor|].
-  induction l as [|[i m] l IH]; cbn; intro Hnd; [constructor|].
-  inversion Hnd as [|x y Hnin Hnd']; subst.
-  destruct (m =? n); cbn; [|now apply IH].
-  constructor; [|now apply IH].
-  intro Hin. apply Hnin. apply in_map_iff in Hin. destruct Hin as [p [Hp Hin]].
-  apply filter_In in Hin. apply in_map_iff. exists p. tauto.
-Qed.
+Proof. intro H. rewrite lookup_named. destruct (n =? 0); [constructor|now apply named_nodup]. Qed.
 
 Lemma lookup_other n l k a :
   NoDup (map fst l) -> find_name l k = Some a -> n <> a -> ~ In k (lookup n l).
 Proof.
-  intros Hnd Hf Hne Hin. apply lookup_in in Hin. destruct Hin as [_ Hin].
-  rewrite (find_name_of_in l k n Hnd Hin) in Hf. congruence.
+  intros Hnd Hf Hne. rewrite lookup_named. destruct (n =? 0); [tauto|].
+  eapply named_other; eauto.
 Qed.
 
 Lemma lookup_dead n l k : find_name l k = None -> ~ In k (lookup n l).
 Proof.
-  intros Hf Hin. apply lookup_in in Hin. destruct Hin as [_ Hin].
-  assert (In k (map fst l)) as Hk by (apply in_map_iff; exists (k, n); tauto).
-  clear Hin. induction l as [|[i m] l IH]; cbn in *; [contradiction|].
-  destruct (N.eqb_spec i k) as [E|Hik]; [subst; discriminate|].
-  destruct Hk as [|Hk]; [contradiction|]. now apply IH.
+  intro Hf. rewrite lookup_named. destruct (n =? 0); [tauto|]. now apply named_dead.
 Qed.
 
-(* ---- the never-named objects *)
-Lemma unnamed_app l k m : unnamed (l ++ [(k, m)]) = unnamed l ++ (if m =? 0 then [k] else []).
-Proof. unfold unnamed. rewrite filter_app, map_app. cbn. now destruct (m =? 0). Qed.
-
-Lemma unnamed_without k l : unnamed (without k l) = rm k (unnamed l).
-Proof.
-  unfold unnamed. induction l as [|[i m] l IH]; cbn; [reflexivity|].
-  destruct (N.eqb_spec i k) as [E|Hik]; [subst|]; cbn.
-  - destruct (m =? 0); cbn; [rewrite N.eqb_refl; cbn|]; exact IH.
-  - destruct (m =? 0); cbn.
-    + destruct (N.eqb_spec i k); [contradiction|]. cbn. now rewrite IH.
-    + exact IH.
-Qed.
-
-Lemma unnamed_rename k n l : n <> 0 -> unnamed (rename_in k n l) = rm k (unnamed l).
-Proof.
-  intro Hn. unfold unnamed. induction l as [|[i m] l IH]; cbn; [reflexivity|].
-  destruct (N.eqb_spec i k) as [E|Hik]; [subst|]; cbn.
-  - destruct (N.eqb_spec n 0); [contradiction|].
-    destruct (m =? 0); cbn; [rewrite N.eqb_refl; cbn|]; exact IH.
-  - destruct (m =? 0); cbn.
-    + destruct (N.eqb_spec i k); [contradiction|]. cbn. now rewrite IH.
-    + exact IH.
-Qed.
+Lemma lookup_in_alive n l k : In k (lookup n l) -> find_name l k <> None.
+Proof. intros Hin Hf. exact (lookup_dead n l k Hf Hin). Qed.
 
 Lemma norm_nz n : norm n <> 0.
 Proof. unfold norm, EMPTY. destruct (N.eqb_spec n 0); [discriminate|assumption]. Qed.
